@@ -66,6 +66,14 @@ def _ver_from_list(l: List[int]) -> Ver:
     return Ver(*l)
 def _ver_to_str(v: Ver) -> str:
     return f"{v.a}.{v.b}"
+@dataclass
+class VerObj:
+    a: int
+    b: int = 0
+def ver_from_obj(o: VerObj) -> Ver:
+    return Ver(o.a, o.b)
+def ver_to_obj(v: Ver) -> VerObj:
+    return VerObj(v.a, v.b)
 deserializer(Conversion(apischema.conversions.catch_value_error(_ver_from_str), source=str, target=Ver))
 deserializer(Conversion(apischema.conversions.catch_value_error(_ver_from_list), source=List[int], target=Ver))
 serializer(_ver_to_str)
@@ -250,6 +258,8 @@ def _metadata(f: Dict[str, Any], prog) -> List[str]:
         md.append("none_as_undefined")
     if f.get("fall_back"):
         md.append("fall_back_on_default")
+    if f.get("fconv"):
+        md.append("conversion(deserialization=ver_from_obj, serialization=ver_to_obj)")
     if f.get("default_as_set"):
         md.append("default_as_set")
     o = f.get("order")
